@@ -1163,10 +1163,13 @@ class NodeIn:
         elif container.isMap():
             return ValueBoolean.fromval(container.hasItem(value))
         elif container.isObject():
-            return ValueBoolean.fromval(container.hasItem(value.value))
+            return ValueBoolean.fromval(
+                value.isString() and container.hasItem(value.value)
+            )
         elif container.isString():
             return ValueBoolean.fromval(
-                container.value.find(value.value) != -1
+                value.isString()
+                and container.value.find(value.value) != -1
             )
         return FALSE
 
